@@ -78,9 +78,9 @@ def C04_race_full (recheck : Bool) : Prop :=
   ∀ ls c, Race.run recheck Race.init ls = some c → c.l = .doneOk → c.t = .done → c.notified = true
 
 open Race in
-/-- **Current code** (`Gen.LinkRace.recheckAfterAdd = false`): the request checks the table, then adds the relation;
-the terminator deletes the table entry, then drains. check · delete · drain · add loses the relation: the request
-reports success and is never notified (defect D15, replayed on the real node by the C04 harness). -/
+/-- **The code before the repair of D15** (no re-check): the request checks the table, then adds the relation; the
+terminator deletes the table entry, then drains. check · delete · drain · add loses the relation: the request reports
+success and is never notified. Kept as a regression statement. -/
 theorem C04_race_counterexample : ¬ C04_race_full false := by
   intro h
   have := h [.lStep, .tStep, .tStep, .lStep] ⟨false, true, .doneOk, .done, false⟩ (by decide) rfl rfl
@@ -132,7 +132,7 @@ theorem run_good : ∀ (ls : List Lbl) (c c' : Cfg), good c = true → Race.run 
 end RaceProof
 
 open Race in
-/-- with a re-check after the insert (the repair) the statement holds for every interleaving -/
+/-- with a re-check after the insert the statement holds for every interleaving -/
 theorem C04_race_with_recheck : C04_race_full true := by
   intro ls c hr hl ht
   have hg := RaceProof.run_good ls Race.init c (by decide) hr
@@ -143,20 +143,18 @@ theorem C04_race_with_recheck : C04_race_full true := by
   · revert hg; cases it <;> cases rl <;> decide
   · rfl
 
-open Race in
-/-- **Partial, for the current code**: if the terminator's table delete does not fall between the request's
-check and its insert (the request is atomic with respect to the delete), a successful request is notified.
-The quantifier is the finite set of such schedules of the two-thread system. -/
-theorem C04_race_partial :
-    ∀ a ∈ [0, 1, 2], ∀ c, Race.run false Race.init
-        (List.replicate a .tStep ++ [.lStep, .lStep] ++ List.replicate (2 - a) .tStep) = some c →
-      c.l = .doneOk → c.notified = true := by
-  decide
+/-- **The race, for the code as it is** (`Gen.LinkRace.recheckAfterAdd`, regenerated from the eight local branches of
+RouteLink*/RouteMonitor*): a request that overlaps the target's termination either fails or is notified, for every
+interleaving of its lookup / insert / re-check with the terminator's table delete / drain. -/
+theorem C04_race : C04_race_full Gen.LinkRace.recheckAfterAdd := by
+  have h : Gen.LinkRace.recheckAfterAdd = true := by decide
+  rw [h]
+  exact C04_race_with_recheck
 
-/-- what the extractor saw in the source: no re-check after the insert in any of the eight local branches, and the
-table delete precedes the drain in unregisterProcess — the shape `Race` models with `recheck := false` -/
-theorem C04_code_shape : Gen.LinkRace.recheckAfterAdd = false ∧ Gen.LinkRace.deleteBeforeDrain = true ∧
-    Gen.LinkRace.lookups.length = 8 := by decide
+/-- what the extractor saw in the source: every one of the eight local branches looks the target up again after the
+insert, and the table delete precedes the drain in unregisterProcess — the shape `Race` models with `recheck := true` -/
+theorem C04_code_shape : Gen.LinkRace.recheckAfterAdd = true ∧ Gen.LinkRace.deleteBeforeDrain = true ∧
+    Gen.LinkRace.lookups.length = 8 ∧ (∀ e ∈ Gen.LinkRace.lookups, e.2 = 2) := by decide
 
 /-- non-vacuity: a history with two holders of different kinds and an unrelated process -/
 example :
